@@ -142,10 +142,10 @@ theorem change_before (c c' : Ctrl) (name : String) (v : Val) (h : c.change name
   · injection h with h; subst h; exact ⟨Nat.le_refl _, fun _ => ⟨Nat.le_refl _, rfl⟩⟩
   · exact absurd h (by simp)
 
-theorem doReset_before (c : Ctrl) : c.before (doReset c) :=
+theorem doReset_before (beh : Behaviour) (c : Ctrl) : c.before (doReset beh c) :=
   ⟨Nat.le_succ _, fun h => absurd h (by simp [doReset])⟩
 
-theorem applyEv_before (c : Ctrl) (ev : Ev) : c.before (applyEv c ev) := by
+theorem applyEv_before (beh : Behaviour) (c : Ctrl) (ev : Ev) : c.before (applyEv beh c ev) := by
   cases ev with
   | idle => exact c.before_refl
   | pause =>
@@ -153,7 +153,7 @@ theorem applyEv_before (c : Ctrl) (ev : Ev) : c.before (applyEv c ev) := by
     cases h : c.clickPlay with
     | none => exact c.before_refl
     | some c' => exact clickPlay_before c c' h
-  | reset => exact doReset_before c
+  | reset => exact doReset_before beh c
   | render n => exact ⟨Nat.le_refl _, fun _ => ⟨Nat.le_refl _, rfl⟩⟩
   | set name v =>
     simp only [applyEv]
@@ -165,12 +165,12 @@ theorem playLoop_before (beh : Behaviour) : ∀ (evs : List (Ev × Option Nat)) 
   | [], c => by
     simp only [playLoop]
     split
-    · exact Ctrl.before_trans (applyEv_before c .pause) (doStep_before beh none _)
+    · exact Ctrl.before_trans (applyEv_before beh c .pause) (doStep_before beh none _)
     · exact c.before_refl
   | (ev, hook) :: rest, c => by
     simp only [playLoop]
     split
-    · exact Ctrl.before_trans (Ctrl.before_trans (applyEv_before c ev) (doStep_before beh hook _)) (playLoop_before beh rest _)
+    · exact Ctrl.before_trans (Ctrl.before_trans (applyEv_before beh c ev) (doStep_before beh hook _)) (playLoop_before beh rest _)
     · exact c.before_refl
 
 theorem apply_before (beh : Behaviour) (c c' : Ctrl) (op : CtrlOp) (h : c.apply beh op = some c') : c.before c' := by
@@ -181,7 +181,7 @@ theorem apply_before (beh : Behaviour) (c c' : Ctrl) (op : CtrlOp) (h : c.apply 
     · exact absurd h (by simp)
     · injection h with h; subst h; exact doStep_before beh none c
   | play => exact clickPlay_before c c' h
-  | reset => simp only [Ctrl.apply] at h; injection h with h; subst h; exact doReset_before c
+  | reset => simp only [Ctrl.apply] at h; injection h with h; subst h; exact doReset_before beh c
   | render n => simp only [Ctrl.apply] at h; injection h with h; subst h; exact ⟨Nat.le_refl _, fun _ => ⟨Nat.le_refl _, rfl⟩⟩
   | threads b =>
     simp only [Ctrl.apply] at h
@@ -227,10 +227,11 @@ theorem clickPlay_paramsInv (names : List String) (c c' : Ctrl) (hi : c.paramsIn
   · injection h with h; subst h; exact hi
   · exact absurd h (by simp)
 
-theorem doReset_paramsInv (names : List String) (c : Ctrl) (hi : c.paramsInv names) : (doReset c).paramsInv names :=
+theorem doReset_paramsInv (beh : Behaviour) (names : List String) (c : Ctrl) (hi : c.paramsInv names) : (doReset beh c).paramsInv names :=
   ⟨hi.1, hi.2.1, fun _ => hi.1⟩
 
-theorem applyEv_paramsInv (names : List String) (c : Ctrl) (ev : Ev) (hi : c.paramsInv names) : (applyEv c ev).paramsInv names := by
+theorem applyEv_paramsInv (beh : Behaviour) (names : List String) (c : Ctrl) (ev : Ev) (hi : c.paramsInv names) :
+    (applyEv beh c ev).paramsInv names := by
   cases ev with
   | idle => exact hi
   | pause =>
@@ -238,7 +239,7 @@ theorem applyEv_paramsInv (names : List String) (c : Ctrl) (ev : Ev) (hi : c.par
     cases h : c.clickPlay with
     | none => exact hi
     | some c' => exact clickPlay_paramsInv names c c' hi h
-  | reset => exact doReset_paramsInv names c hi
+  | reset => exact doReset_paramsInv beh names c hi
   | render n => exact hi
   | set name v =>
     simp only [applyEv]
@@ -251,12 +252,12 @@ theorem playLoop_paramsInv (beh : Behaviour) (names : List String) :
   | [], c, hi => by
     simp only [playLoop]
     split
-    · exact doStep_paramsInv beh none names _ (applyEv_paramsInv names c .pause hi)
+    · exact doStep_paramsInv beh none names _ (applyEv_paramsInv beh names c .pause hi)
     · exact hi
   | (ev, hook) :: rest, c, hi => by
     simp only [playLoop]
     split
-    · exact playLoop_paramsInv beh names rest _ (doStep_paramsInv beh hook names _ (applyEv_paramsInv names c ev hi))
+    · exact playLoop_paramsInv beh names rest _ (doStep_paramsInv beh hook names _ (applyEv_paramsInv beh names c ev hi))
     · exact hi
 
 theorem apply_paramsInv (beh : Behaviour) (names : List String) (c c' : Ctrl) (op : CtrlOp) (hi : c.paramsInv names)
@@ -268,7 +269,7 @@ theorem apply_paramsInv (beh : Behaviour) (names : List String) (c c' : Ctrl) (o
     · exact absurd h (by simp)
     · injection h with h; subst h; exact doStep_paramsInv beh none names c hi
   | play => exact clickPlay_paramsInv names c c' hi h
-  | reset => simp only [Ctrl.apply] at h; injection h with h; subst h; exact doReset_paramsInv names c hi
+  | reset => simp only [Ctrl.apply] at h; injection h with h; subst h; exact doReset_paramsInv beh names c hi
   | render n => simp only [Ctrl.apply] at h; injection h with h; subst h; exact hi
   | threads b =>
     simp only [Ctrl.apply] at h
@@ -285,58 +286,80 @@ theorem run_paramsInv (beh : Behaviour) (names : List String) :
     | none => exact run_paramsInv beh names ops c hi
     | some c' => exact run_paramsInv beh names ops c' (apply_paramsInv beh names c c' op hi h)
 
-/-! ## the flag `running` is the model's, as long as the threads checkbox is left alone -/
+/-! ## the flag `running` is the model's, as long as the threads checkbox is left alone — except right after a reset -/
 
 def CtrlOp.isThreads : CtrlOp → Bool
   | .threads _ => true
   | _ => false
 
-theorem doStep_flag (beh : Behaviour) (hook : Option Nat) (c : Ctrl) (h : c.running = c.mrunning) :
-    (doStep beh hook c).running = (doStep beh hook c).mrunning := by
-  have := doStep_spec beh hook c
-  simp only at this
-  exact this.2.2.2.2.2.2.2.2.2 h
+/-- `mrunning` is what the model class says of this model after this many steps; the flag the buttons are drawn from is
+    the model's — or the model has not been stepped yet and the flag is on (a reset, like the first render, sets the flag
+    without looking at the model) -/
+def Ctrl.flagInv (beh : Behaviour) (c : Ctrl) : Prop :=
+  c.mrunning = beh c.kwargs c.steps ∧ (c.running = c.mrunning ∨ (c.steps = 0 ∧ c.running = true))
 
-theorem applyEv_flag (c : Ctrl) (ev : Ev) (h : c.running = c.mrunning) : (applyEv c ev).running = (applyEv c ev).mrunning := by
+theorem stepLoop_flagInv (beh : Behaviour) (breakable : Bool) (hook : Option Nat) (n i : Nat) (c : Ctrl)
+    (h : c.flagInv beh) : (stepLoop beh breakable hook n i c).flagInv beh := by
+  cases n with
+  | zero => simpa [stepLoop] using h
+  | succ m =>
+    obtain ⟨hs, _, _, _, h5⟩ := stepLoop_spec beh breakable hook (m + 1) i c
+    obtain ⟨j1, j2, _⟩ := h5 (Nat.succ_pos m)
+    exact ⟨by rw [j2, hs.2.2.1], Or.inl j1⟩
+
+theorem doStep_flagInv (beh : Behaviour) (hook : Option Nat) (c : Ctrl) (h : c.flagInv beh) :
+    (doStep beh hook c).flagInv beh := by
+  simp only [doStep]
+  split
+  · split
+    · exact stepLoop_flagInv beh true hook c.render 1 c h
+    · exact stepLoop_flagInv beh true hook c.render 1 c h
+  · exact stepLoop_flagInv beh false hook c.render 1 c h
+
+theorem doReset_flagInv (beh : Behaviour) (c : Ctrl) : (doReset beh c).flagInv beh :=
+  ⟨rfl, Or.inr ⟨rfl, rfl⟩⟩
+
+theorem clickPlay_getD_flagInv (beh : Behaviour) (c : Ctrl) (h : c.flagInv beh) : (c.clickPlay.getD c).flagInv beh := by
+  unfold Ctrl.clickPlay
+  split <;> exact h
+
+theorem applyEv_flagInv (beh : Behaviour) (c : Ctrl) (ev : Ev) (h : c.flagInv beh) : (applyEv beh c ev).flagInv beh := by
   cases ev with
   | idle => exact h
-  | pause =>
-    simp only [applyEv]
-    have := clickPlay_getD_fields c
-    rw [this.2.2, this.2.1]; exact h
-  | reset => rfl
+  | pause => exact clickPlay_getD_flagInv beh c h
+  | reset => exact doReset_flagInv beh c
   | render n => exact h
   | set name v =>
     simp only [applyEv, Ctrl.change]
     split <;> exact h
 
-theorem playLoop_flag (beh : Behaviour) : ∀ (evs : List (Ev × Option Nat)) (c : Ctrl), c.running = c.mrunning →
-    (playLoop beh evs c).running = (playLoop beh evs c).mrunning
+theorem playLoop_flagInv (beh : Behaviour) : ∀ (evs : List (Ev × Option Nat)) (c : Ctrl), c.flagInv beh →
+    (playLoop beh evs c).flagInv beh
   | [], c, h => by
     simp only [playLoop]
     split
-    · exact doStep_flag beh none _ (applyEv_flag c .pause h)
+    · exact doStep_flagInv beh none _ (applyEv_flagInv beh c .pause h)
     · exact h
   | (ev, hook) :: rest, c, h => by
     simp only [playLoop]
     split
-    · exact playLoop_flag beh rest _ (doStep_flag beh hook _ (applyEv_flag c ev h))
+    · exact playLoop_flagInv beh rest _ (doStep_flagInv beh hook _ (applyEv_flagInv beh c ev h))
     · exact h
 
-theorem apply_flag (beh : Behaviour) (c c' : Ctrl) (op : CtrlOp) (hop : op.isThreads = false) (hf : c.running = c.mrunning)
-    (h : c.apply beh op = some c') : c'.running = c'.mrunning := by
+theorem apply_flagInv (beh : Behaviour) (c c' : Ctrl) (op : CtrlOp) (hop : op.isThreads = false) (hf : c.flagInv beh)
+    (h : c.apply beh op = some c') : c'.flagInv beh := by
   cases op with
   | step =>
     simp only [Ctrl.apply] at h
     split at h
     · exact absurd h (by simp)
-    · injection h with h; subst h; exact doStep_flag beh none c hf
+    · injection h with h; subst h; exact doStep_flagInv beh none c hf
   | play =>
     simp only [Ctrl.apply, Ctrl.clickPlay] at h
     split at h
     · injection h with h; subst h; exact hf
     · exact absurd h (by simp)
-  | reset => simp only [Ctrl.apply] at h; injection h with h; subst h; rfl
+  | reset => simp only [Ctrl.apply] at h; injection h with h; subst h; exact doReset_flagInv beh c
   | render n => simp only [Ctrl.apply] at h; injection h with h; subst h; exact hf
   | threads b => simp [CtrlOp.isThreads] at hop
   | change name v =>
@@ -344,17 +367,115 @@ theorem apply_flag (beh : Behaviour) (c c' : Ctrl) (op : CtrlOp) (hop : op.isThr
     split at h
     · injection h with h; subst h; exact hf
     · exact absurd h (by simp)
-  | loop evs => simp only [Ctrl.apply] at h; injection h with h; subst h; exact playLoop_flag beh evs c hf
+  | loop evs => simp only [Ctrl.apply] at h; injection h with h; subst h; exact playLoop_flagInv beh evs c hf
 
-theorem run_flag (beh : Behaviour) : ∀ (ops : List CtrlOp) (c : Ctrl), (∀ op ∈ ops, op.isThreads = false) →
-    c.running = c.mrunning → (c.run beh ops).running = (c.run beh ops).mrunning
+theorem run_flagInv (beh : Behaviour) : ∀ (ops : List CtrlOp) (c : Ctrl), (∀ op ∈ ops, op.isThreads = false) →
+    c.flagInv beh → (c.run beh ops).flagInv beh
   | [], _, _, hf => hf
   | op :: ops, c, hops, hf => by
     simp only [Ctrl.run]
     have hrest : ∀ o ∈ ops, o.isThreads = false := fun o ho => hops o (List.mem_cons_of_mem _ ho)
     cases h : c.apply beh op with
-    | none => exact run_flag beh ops c hrest hf
-    | some c' => exact run_flag beh ops c' hrest (apply_flag beh c c' op (hops op List.mem_cons_self) hf h)
+    | none => exact run_flagInv beh ops c hrest hf
+    | some c' => exact run_flagInv beh ops c' hrest (apply_flagInv beh c c' op (hops op List.mem_cons_self) hf h)
+
+/-- the controller's own setting (which controller it is) never changes -/
+theorem run_sim (beh : Behaviour) : ∀ (ops : List CtrlOp) (c : Ctrl), (c.run beh ops).sim = c.sim := by
+  have hclick : ∀ c c' : Ctrl, c.clickPlay = some c' → c'.sim = c.sim := by
+    intro c c' h
+    unfold Ctrl.clickPlay at h
+    split at h
+    · injection h with h; subst h; rfl
+    · exact absurd h (by simp)
+  have hchange : ∀ (c c' : Ctrl) n v, c.change n v = some c' → c'.sim = c.sim := by
+    intro c c' n v h
+    unfold Ctrl.change at h
+    split at h
+    · injection h with h; subst h; rfl
+    · exact absurd h (by simp)
+  have hstepOnce : ∀ hook i (c : Ctrl), (stepOnce beh hook i c).sim = c.sim := by
+    intro hook i c
+    have hgetD : ∀ c : Ctrl, (c.clickPlay.getD c).sim = c.sim := by
+      intro c
+      unfold Ctrl.clickPlay
+      split <;> rfl
+    simp only [stepOnce]
+    split
+    · exact hgetD (c.modelStep beh)
+    · rfl
+  have hstepLoop : ∀ br hook n i (c : Ctrl), (stepLoop beh br hook n i c).sim = c.sim := by
+    intro br hook n
+    induction n with
+    | zero => intro i c; rfl
+    | succ n ih =>
+      intro i c
+      simp only [stepLoop]
+      split
+      · exact hstepOnce hook i c
+      · exact (ih (i + 1) _).trans (hstepOnce hook i c)
+  have hdoStep : ∀ hook (c : Ctrl), (doStep beh hook c).sim = c.sim := by
+    intro hook c
+    simp only [doStep]
+    split
+    · split <;> exact hstepLoop true hook c.render 1 c
+    · exact hstepLoop false hook c.render 1 c
+  have hev : ∀ (c : Ctrl) ev, (applyEv beh c ev).sim = c.sim := by
+    intro c ev
+    cases ev with
+    | idle => rfl
+    | pause =>
+      simp only [applyEv]
+      cases h : c.clickPlay with
+      | none => rfl
+      | some c' => exact hclick c c' h
+    | reset => rfl
+    | render n => rfl
+    | set name v =>
+      simp only [applyEv]
+      cases h : c.change name v with
+      | none => rfl
+      | some c' => exact hchange c c' name v h
+  have hloop : ∀ evs (c : Ctrl), (playLoop beh evs c).sim = c.sim := by
+    intro evs
+    induction evs with
+    | nil =>
+      intro c
+      simp only [playLoop]
+      split
+      · exact (hdoStep none _).trans (hev c .pause)
+      · rfl
+    | cons e rest ih =>
+      intro c
+      obtain ⟨ev, hook⟩ := e
+      simp only [playLoop]
+      split
+      · exact (ih _).trans ((hdoStep hook _).trans (hev c ev))
+      · rfl
+  have happly : ∀ (c c' : Ctrl) op, c.apply beh op = some c' → c'.sim = c.sim := by
+    intro c c' op h
+    cases op with
+    | step =>
+      simp only [Ctrl.apply] at h
+      split at h
+      · exact absurd h (by simp)
+      · injection h with h; subst h; exact hdoStep none c
+    | play => exact hclick c c' h
+    | reset => simp only [Ctrl.apply] at h; injection h with h; subst h; rfl
+    | render n => simp only [Ctrl.apply] at h; injection h with h; subst h; rfl
+    | threads b =>
+      simp only [Ctrl.apply] at h
+      split at h <;> (injection h with h; subst h; rfl)
+    | change name v => exact hchange c c' name v h
+    | loop evs => simp only [Ctrl.apply] at h; injection h with h; subst h; exact hloop evs c
+  intro ops
+  induction ops with
+  | nil => intro c; rfl
+  | cons op ops ih =>
+    intro c
+    simp only [Ctrl.run]
+    cases h : c.apply beh op with
+    | none => exact ih c
+    | some c' => exact (ih c').trans (happly c c' op h)
 
 /-! ## the play loop on a model that stops; a pause during a step -/
 
@@ -519,7 +640,7 @@ theorem lastChange_cons (ch : String × Val) (rest : List (String × Val)) (name
 theorem run_changes_reset (beh : Behaviour) (names : List String) :
     ∀ (changes : List (String × Val)) (c : Ctrl), c.paramsInv names → (∀ ch ∈ changes, ch.1 ∈ c.inputs) →
       let c' := c.run beh (changes.map (fun ch => CtrlOp.change ch.1 ch.2) ++ [.reset])
-      c'.gen = c.gen + 1 ∧ c'.steps = 0 ∧ c'.playing = false ∧ c'.running = true ∧ c'.mrunning = true ∧
+      c'.gen = c.gen + 1 ∧ c'.steps = 0 ∧ c'.playing = false ∧ c'.running = true ∧ c'.mrunning = beh c'.kwargs 0 ∧
       c'.kwargs.map (·.1) = names ∧
       ∀ name, c'.kwargs.lookup name = match lastChange changes name with
         | some v => some (some v)
